@@ -35,10 +35,13 @@ const (
 	NeverRunning                 // launch: accepted but never reports TASK_RUNNING
 	LaunchFails                  // launch: TASK_FAILED instead of TASK_RUNNING
 	SlowLaunch                   // launch: TASK_RUNNING is reported one virtual second after the ACCEPT (an executor that takes its time to come up)
+	LateLaunch                   // launch: TASK_RUNNING is reported Master.LateLaunchDelay after the ACCEPT (default 75 s: after a 30 s deployment timeout)
+	SlowReply                    // transition: done and acknowledged Master.SlowReplyDelay after the command arrived (default 60 s: within the response timeouts)
+	LateReply                    // transition: done and acknowledged Master.LateReplyDelay after the command arrived (default 150 s: after every response timeout)
 )
 
 func (o Outcome) String() string {
-	return [...]string{"ok", "err-source", "err-ERROR", "undeliverable", "silent", "dies", "never-running", "launch-fails", "slow-launch"}[o]
+	return [...]string{"ok", "err-source", "err-ERROR", "undeliverable", "silent", "dies", "never-running", "launch-fails", "slow-launch", "late-launch", "slow-reply", "late-reply"}[o]
 }
 
 // Agent is one simulated Mesos agent.
@@ -116,6 +119,11 @@ type Master struct {
 	// tasks lost while the framework was not connected (LoseWhileDisconnected): the implicit
 	// reconciliation after the resubscription is the only way the framework learns about them
 	reconLost map[string]bool
+	// delays of the outcomes LateLaunch / SlowReply / LateReply (0 = the defaults named at the outcomes)
+	LateLaunchDelay, SlowReplyDelay, LateReplyDelay time.Duration
+	// OfferDelay > 0: the offer round that answers a REVIVE arrives that much (virtual time) later instead of
+	// within the call (a master that takes a moment: the caller is parked on its outcome channel by then)
+	OfferDelay time.Duration
 }
 
 // NewMaster creates a master with the given agents.
@@ -212,7 +220,11 @@ func (m *Master) call(ctx context.Context, c *scheduler.Call) (mesos.Response, e
 	case scheduler.Call_REVIVE:
 		m.rec(CallRec{Type: "REVIVE", FID: fid})
 		if m.AutoOffers {
-			m.SendOffers()
+			if m.OfferDelay > 0 {
+				vrt.AfterFunc(m.OfferDelay, m.SendOffers)
+			} else {
+				m.SendOffers()
+			}
 		}
 	case scheduler.Call_DECLINE:
 		var ids []string
@@ -410,6 +422,18 @@ func (m *Master) accept(fid string, a *scheduler.Call_Accept) {
 						m.status(tt, mesos.TASK_RUNNING, "")
 					}
 				})
+			case LateLaunch:
+				t.MesosState = mesos.TASK_STAGING
+				tt := t
+				d := m.LateLaunchDelay
+				if d == 0 {
+					d = 75 * time.Second
+				}
+				vrt.AfterFunc(d, func() {
+					if tt.Alive && tt.MesosState == mesos.TASK_STAGING {
+						m.status(tt, mesos.TASK_RUNNING, "")
+					}
+				})
 			default:
 				m.status(t, mesos.TASK_RUNNING, "")
 			}
@@ -495,6 +519,29 @@ func (m *Master) message(fid string, msg *scheduler.Call_Message) (mesos.Respons
 		case ErrError:
 			t.State = "ERROR"
 			reply(controlcommands.NewMesosCommandResponse_Transition(&cmd, fmt.Errorf("transition %s failed, device in ERROR", cmd.Event), "ERROR", tid))
+		case SlowReply, LateReply:
+			// the device takes its time: the transition happens, and is acknowledged, only after the delay
+			d := m.SlowReplyDelay
+			if d == 0 {
+				d = 60 * time.Second
+			}
+			if o == LateReply {
+				if d = m.LateReplyDelay; d == 0 {
+					d = 150 * time.Second
+				}
+			}
+			tt, c := t, cmd
+			vrt.AfterFunc(d, func() {
+				if !tt.Alive {
+					return
+				}
+				if tt.State != c.Source {
+					reply(controlcommands.NewMesosCommandResponse_Transition(&c, fmt.Errorf("task is in %s, not in %s", tt.State, c.Source), tt.State, tid))
+				} else {
+					tt.State = c.Destination
+					reply(controlcommands.NewMesosCommandResponse_Transition(&c, nil, tt.State, tid))
+				}
+			})
 		default:
 			if t.State != cmd.Source {
 				reply(controlcommands.NewMesosCommandResponse_Transition(&cmd, fmt.Errorf("task is in %s, not in %s", t.State, cmd.Source), t.State, tid))
